@@ -12,6 +12,7 @@ From ClapModel Require Import Parse.Cmd Parse.Build Parse.Valid Parse.Matcher Pa
 From ClapModel Require ParseProofs.Chain ParseProofs.Globals ParseProofs.UnparseTree.
 From ClapModel Require Gen.ActionTables ParseProofs.TablesActions Gen.SettingsTables ParseProofs.TablesSettings.
 From ClapModel Require Gen.BuildTables ParseProofs.TablesBuild Derive.DeriveModel Complete.AotTree.
+From ClapModel Require Gen.GateSites ParseProofs.TablesGate.
 From Coq Require Import ZArith.
 Open Scope N_scope.
 
@@ -930,3 +931,28 @@ Theorem C07_deprecated_table :
                                             (c_args c) BuildTables.gen_highest_idx_default)) (c_args c)).
 Proof. exact (conj TablesBuild.deprecated_table TablesBuild.deprecated_highest_table_proj). Qed.
 Print Assumptions C07_deprecated_table.
+
+(** ---- the configuration gate (debug_asserts.rs): inventory of its assertions, and its two `checker!` tables ---- *)
+(** every assert!/assert_eq!/panic! of the source's gate, in source order, is classified in [TablesGate.model_gate_coverage]
+    (which conjunct of Parse/Valid.v stands for it, or why the model has none); 7 of the 63 have none (value hints, help
+    templates: data no case of this framework can express) *)
+Theorem C07_gate_sites_covered :
+  map fst TablesGate.model_gate_coverage = GateSites.gen_gate_sites
+  /\ length (filter (fun r => TablesGate.is_nodata (snd r)) TablesGate.model_gate_coverage) = 7%nat
+  /\ length TablesGate.model_gate_coverage = 63%nat.
+Proof. exact (conj TablesGate.gate_sites_covered TablesGate.gate_sites_without_counterpart). Qed.
+Print Assumptions C07_gate_sites_covered.
+
+(** [assert_arg] = its core && the interpreted `checker!(a requires b)` table of assert_arg_flags; the rows of the table
+    the model has no flag for are exactly the two help-only ones *)
+Theorem C07_assert_arg_flags_table :
+  (forall a, assert_arg a = TablesGate.assert_arg_core a && TablesGate.tbl_arg_flag_checks a)
+  /\ map fst (filter (fun row => match TablesGate.arg_getter (fst row) with None => true | Some _ => false end)
+                     GateSites.gen_arg_flag_requires)
+     = TablesGate.known_unmodelled_arg_flags.
+Proof. exact (conj TablesGate.assert_arg_flags_table TablesGate.unmodelled_arg_flags). Qed.
+Print Assumptions C07_assert_arg_flags_table.
+
+Theorem C07_app_flags_table : forall c, assert_app c = true -> TablesGate.tbl_app_flag_checks c = Some true.
+Proof. exact TablesGate.app_flags_table. Qed.
+Print Assumptions C07_app_flags_table.
